@@ -115,4 +115,7 @@ def validate(ctx, tp, events):
                      "event": e, "family": "fmtstream-trace"}], "trace validation")
         t = e.get("t")
         cur = [x for x in cur if x.get("t") != t]
-    raise vlib.Infra("more than 20 rejected traces")
+    if ctx.violations:
+        # many traces are rejected: the violations found so far are reported, the rest is not examined
+        return nw, nchg
+    raise vlib.Infra("more than 20 rejected traces, all of them known findings - the recorder hits a known finding too often")
